@@ -99,6 +99,14 @@ func (c *Ctx) serviceTypes() map[string]*types.Named {
 				continue
 			}
 			ssaEvalHook = func(v ssa.Value, _ func(ssa.Value) (constant.Value, bool)) (constant.Value, bool) {
+				// a package-level table keyed by reflect.TypeOf(x), looked
+				// up with reflect.TypeOf(parameter)
+				if lk, isLk := v.(*ssa.Lookup); isLk && !lk.CommaOk {
+					if s, ok := typeKeyedLookup(lk, g.Params[0], at); ok {
+						return constant.MakeString(s), true
+					}
+					return nil, false
+				}
 				ex, ok := v.(*ssa.Extract)
 				if !ok || ex.Index != 1 {
 					return nil, false
@@ -145,8 +153,10 @@ func (c *Ctx) resolvePair(fn *ssa.Function, a, b ssa.Value, depth int) (pairs []
 	if depth <= 0 {
 		return nil, "", false
 	}
-	pa, isPa := strip(a).(*ssa.Parameter)
-	pb, isPb := strip(b).(*ssa.Parameter)
+	// a parameter, or a string field of a struct-typed parameter (the
+	// method name travelling in a small descriptor struct)
+	pa, fa, isPa := paramOrField(a)
+	pb, fb, isPb := paramOrField(b)
 	if (!oka && !isPa) || (!okb && !isPb) {
 		return nil, "", false
 	}
@@ -172,6 +182,13 @@ func (c *Ctx) resolvePair(fn *ssa.Function, a, b ssa.Value, depth int) (pairs []
 				return nil, "", false
 			}
 			va = args[i]
+			if fa >= 0 {
+				k, ok := fieldConstOf(va, fa)
+				if !ok {
+					return nil, "", false
+				}
+				va = k
+			}
 		} else {
 			va = a
 		}
@@ -181,6 +198,13 @@ func (c *Ctx) resolvePair(fn *ssa.Function, a, b ssa.Value, depth int) (pairs []
 				return nil, "", false
 			}
 			vb = args[i]
+			if fb >= 0 {
+				k, ok := fieldConstOf(vb, fb)
+				if !ok {
+					return nil, "", false
+				}
+				vb = k
+			}
 		} else {
 			vb = b
 		}
@@ -578,6 +602,16 @@ func (c *Ctx) rpcUsesIn(g *ssa.Function) []rpcUse {
 				if k := paramIndexLocal(h, v); k >= 0 && k < len(ci.Common().Args) {
 					return constString(ci.Common().Args[k])
 				}
+				// a field of a descriptor struct handed to the wrapper
+				if q, fld, ok := paramOrField(v); ok && fld >= 0 {
+					for k, hp := range h.Params {
+						if hp == q && k < len(ci.Common().Args) {
+							if kv, ok := fieldConstOf(ci.Common().Args[k], fld); ok {
+								return constString(kv)
+							}
+						}
+					}
+				}
 				return "", false
 			}
 			dest, okD := resolve(a[pos[0]])
@@ -609,4 +643,197 @@ func paramIndexLocal(f *ssa.Function, v ssa.Value) int {
 		}
 	}
 	return -1
+}
+
+// paramOrField: v is a parameter (field -1), or field `field` of a
+// struct-typed parameter read through go/ssa's local copy of it.
+func paramOrField(v ssa.Value) (p *ssa.Parameter, field int, ok bool) {
+	v = strip(v)
+	if q, isP := v.(*ssa.Parameter); isP {
+		return q, -1, true
+	}
+	base := func(x ssa.Value) *ssa.Parameter {
+		switch y := x.(type) {
+		case *ssa.Parameter:
+			return y
+		case *ssa.Alloc: // `t0 = local T (p); *t0 = p`
+			if y.Referrers() == nil {
+				return nil
+			}
+			var found *ssa.Parameter
+			n := 0
+			for _, ref := range *y.Referrers() {
+				if st, isSt := ref.(*ssa.Store); isSt && st.Addr == ssa.Value(y) {
+					n++
+					found, _ = st.Val.(*ssa.Parameter)
+				}
+			}
+			if n == 1 {
+				return found
+			}
+		}
+		return nil
+	}
+	switch x := v.(type) {
+	case *ssa.Field:
+		if q := base(x.X); q != nil {
+			return q, x.Field, true
+		}
+		if u, isU := x.X.(*ssa.UnOp); isU && u.Op == token.MUL {
+			if q := base(u.X); q != nil {
+				return q, x.Field, true
+			}
+		}
+	case *ssa.UnOp:
+		if fa, isFA := x.X.(*ssa.FieldAddr); isFA && x.Op == token.MUL {
+			if q := base(fa.X); q != nil {
+				return q, fa.Field, true
+			}
+		}
+	}
+	return nil, -1, false
+}
+
+// fieldConstOf: the constant string that field `field` of the struct value v
+// holds: v is loaded from a package-level variable or a local whose field is
+// written exactly once, with a constant (a composite literal).
+func fieldConstOf(v ssa.Value, field int) (ssa.Value, bool) {
+	u, ok := stripLocal(v).(*ssa.UnOp)
+	if !ok || u.Op != token.MUL {
+		return nil, false
+	}
+	var fns []*ssa.Function
+	switch base := u.X.(type) {
+	case *ssa.Global:
+		if base.Pkg == nil {
+			return nil, false
+		}
+		for _, m := range base.Pkg.Members {
+			if f, isF := m.(*ssa.Function); isF {
+				fns = append(fns, f)
+				fns = append(fns, f.AnonFuncs...)
+			}
+		}
+		for _, m := range base.Pkg.Members {
+			if t, isT := m.(*ssa.Type); isT {
+				for _, ptr := range []types.Type{t.Type(), types.NewPointer(t.Type())} {
+					ms := base.Pkg.Prog.MethodSets.MethodSet(ptr)
+					for i := 0; i < ms.Len(); i++ {
+						if f := base.Pkg.Prog.MethodValue(ms.At(i)); f != nil && f.Pkg == base.Pkg {
+							fns = append(fns, f)
+						}
+					}
+				}
+			}
+		}
+	case *ssa.Alloc:
+		fns = []*ssa.Function{base.Parent()}
+	default:
+		return nil, false
+	}
+	var val ssa.Value
+	n := 0
+	seen := map[*ssa.Function]bool{}
+	for _, f := range fns {
+		if f == nil || seen[f] {
+			continue
+		}
+		seen[f] = true
+		instrs(f, func(i ssa.Instruction) {
+			st, isSt := i.(*ssa.Store)
+			if !isSt {
+				return
+			}
+			if st.Addr == u.X { // the whole value replaced
+				n += 2
+				return
+			}
+			if fa, isFA := st.Addr.(*ssa.FieldAddr); isFA && fa.X == u.X && fa.Field == field {
+				n++
+				val = st.Val
+			}
+		})
+	}
+	if n != 1 {
+		return nil, false
+	}
+	if _, isK := constString(val); !isK {
+		return nil, false
+	}
+	return val, true
+}
+
+// typeKeyedLookup evaluates `table[reflect.TypeOf(p)]` for a parameter p
+// whose dynamic type is at: table is a package-level map built once, in the
+// package initialiser, with keys reflect.TypeOf(v) and constant string
+// values. A type that is not a key gives "" (the zero value), as at run time.
+func typeKeyedLookup(lk *ssa.Lookup, p *ssa.Parameter, at types.Type) (string, bool) {
+	kc, _ := originCallLocal(lk.Index)
+	if kc == nil || !nameMatches(callName(kc.Common()), "=reflect.TypeOf") || stripLocal(kc.Common().Args[0]) != ssa.Value(p) {
+		return "", false
+	}
+	u, ok := lk.X.(*ssa.UnOp)
+	if !ok || u.Op != token.MUL {
+		return "", false
+	}
+	gl, ok := u.X.(*ssa.Global)
+	if !ok || gl.Pkg == nil || gl.Pkg.Func("init") == nil {
+		return "", false
+	}
+	var mk *ssa.MakeMap
+	for _, b := range gl.Pkg.Func("init").Blocks {
+		for _, in := range b.Instrs {
+			if st, ok := in.(*ssa.Store); ok && st.Addr == ssa.Value(gl) {
+				m, ok := st.Val.(*ssa.MakeMap)
+				if !ok || mk != nil {
+					return "", false
+				}
+				mk = m
+			}
+		}
+	}
+	if mk == nil || mk.Referrers() == nil {
+		return "", false
+	}
+	// no other writer of the table in the package
+	writers := 0
+	for _, mem := range gl.Pkg.Members {
+		f, isF := mem.(*ssa.Function)
+		if !isF {
+			continue
+		}
+		for _, fn := range append([]*ssa.Function{f}, f.AnonFuncs...) {
+			instrs(fn, func(i ssa.Instruction) {
+				switch x := i.(type) {
+				case *ssa.Store:
+					if x.Addr == ssa.Value(gl) {
+						writers++
+					}
+				case *ssa.MapUpdate:
+					if l, ok := x.Map.(*ssa.UnOp); ok && l.X == ssa.Value(gl) {
+						writers += 2
+					}
+				}
+			})
+		}
+	}
+	if writers != 1 {
+		return "", false
+	}
+	res := ""
+	for _, ref := range *mk.Referrers() {
+		mu, ok := ref.(*ssa.MapUpdate)
+		if !ok {
+			continue
+		}
+		tc, _ := originCallLocal(mu.Key)
+		val, isS := constString(mu.Value)
+		if tc == nil || !nameMatches(callName(tc.Common()), "=reflect.TypeOf") || !isS {
+			return "", false
+		}
+		if types.Identical(strip(tc.Common().Args[0]).Type(), at) {
+			res = val
+		}
+	}
+	return res, true
 }
